@@ -100,7 +100,7 @@ class Fn:
                 return self.ty(e[1], env)
             if e[2] in ("is_some", "is_none", "is_some_and", "is_empty", "contains_key", "is_absolute"):
                 return "bool"
-            if e[2] in ("copied", "cloned", "clone", "collect", "to_string_lossy", "chain", "iter"):
+            if e[2] in ("copied", "cloned", "clone", "collect", "to_string_lossy", "chain", "iter", "ok"):
                 return self.ty(e[1], env)
             if ("." + e[2]) in self.calls:
                 rt = self.calls["." + e[2]][1]
@@ -326,7 +326,7 @@ class Fn:
             raise Unsupported("call of %s" % (f,))
         if k == "mcall":
             recv, name, args = e[1], e[2], e[3]
-            if name in ("copied", "cloned", "clone", "to_owned", "iter", "as_ref", "collect", "to_path_buf", "to_string_lossy") and not args:
+            if name in ("copied", "cloned", "clone", "to_owned", "iter", "as_ref", "collect", "to_path_buf", "to_string_lossy", "ok") and not args:
                 return self.ex(recv, env)
             if name == "chain" and len(args) == 1:
                 return "(%s ++ %s)" % (self.ex(recv, env), self.ex(args[0], env))
@@ -602,6 +602,8 @@ class Fn:
             if e is None:
                 raise Unsupported("let without initialiser")
             t = norm_type(ty_) if ty_ else None
+            if t == "Self":
+                t = self.spec.get("self_type", t)
             if els is not None:
                 # let PAT = e else { diverge };
                 st = self.ty(e, env)
@@ -610,6 +612,16 @@ class Fn:
                 ps, add = self.pat(pat, env, st)
                 other = self.block(els, env, Ctx(val=None, ret=ctx.ret, fall=None, cont=ctx.cont))
                 return "match %s with %s => %s | _ => %s end" % (self.ex(e, env), ps, after(dict(env, **add)), other)
+            if pat[0] == "pbind" and e[0] == "try":
+                # `let x = e?;` in a function returning Option: None propagates
+                inner = e[1]
+                it = self.ty(inner, env)
+                m = re.match(r"Option<(.*)>$", it or "")
+                tt = t or (m.group(1) if m else None)
+                none = self.spec.get("try_none")
+                if none is None:
+                    raise Unsupported("`?` in a function without a propagation value")
+                return "match %s with Some %s => %s | None => %s end" % (self.ex(inner, env), self.var(pat[1]), after(dict(env, **{pat[1]: tt})), none)
             if pat[0] == "pbind":
                 tt = t or self.ty(e, env)
                 conv = self.spec.get("let_conv", {}).get(pat[1])
@@ -807,6 +819,8 @@ def read(rel):
 
 def translate_fn(src, name, within, spec, gname, gparams, gret, env_types=None, self_type=None):
     params, ret, body = R.find_fn(src, name, within)
+    if self_type:
+        spec = dict(spec, self_type=self_type)
     fn = Fn(spec)
     env = {}
     for n, t in params:
@@ -873,6 +887,21 @@ def functions():
                 " | ConvergeIdentical, ConvergeIdentical\n  | DeleteA, DeleteA | DeleteB, DeleteB | Conflict BothChanged, Conflict BothChanged\n"
                 "  | Conflict DeleteVsModify, Conflict DeleteVsModify => true\n  | _, _ => false\n  end.\n" + text)
     out.append(("reconcile", rec + " reconcile", "digest", t_reconcile))
+
+    def t_archive_load():
+        src = read("src/bin/copia/archive.rs")
+        fields = R.struct_fields(src, "Archive")
+        if fields[:2] != [("format_version", "u32"), ("root_pair_hash", "String")] or ("entries", "FpMap") not in fields:
+            raise Unsupported("struct Archive is %s" % fields)
+        spec = dict(signature=[("path", "Path"), ("expected_pair", "str")], try_none="None",
+                    # std::fs::read(path) is the model's `file` (None = absent / unreadable); serde_json::from_slice is `parse`
+                    calls={"std::fs::read": ("file {0}", "Option<Vec<u8>>"), "serde_json::from_slice": ("parse", "Option<Archive>")},
+                    fields={("Archive", "format_version"): ("(fst (fst {0}))", "u32"), ("Archive", "root_pair_hash"): ("(snd (fst {0}))", "String")},
+                    consts={"FORMAT_VERSION": ("ARCHIVE_FORMAT_VERSION", "u32")}, eq={"String": "bytes_eqb"},
+                    param_types={"expected_pair": "String"})
+        return translate_fn(src, "load", "Archive", spec, "g_archive_load",
+                            "(path expected_pair : list Z)", "option (Z * list Z * E)", self_type="Archive")
+    out.append(("archive_load", "src/bin/copia/archive.rs Archive::load", None, t_archive_load))
 
     def t_cas():
         src = read("src/bin/copia/wire.rs")
@@ -987,6 +1016,7 @@ GROUPS = {
     # group -> (imports, needs the digest section, [function keys], properties whose models rest on these functions)
     "Reconcile": ("Model.Reconcile", True, ["same", "reconcile_path", "reconcile"]),
     "Cas": ("", True, ["cas_decide"]),
+    "Archive": ("Model.Archive", "archive", ["archive_load"]),
     "Plan": ("Model.Glob Model.Plan", False, ["needs_transfer", "glob_match", "is_excluded", "build_plan"]),
     "Protocol": ("Model.Checksum Model.Delta Model.Protocol", False, ["from_u8", "hvalidate"]),
     "DeltaV": ("Model.Checksum Model.Delta", True, ["delta_validate"]),
@@ -1026,7 +1056,10 @@ def main():
         body = HEADER % (group, imports)
         if group == "Cas":
             body += "\nInductive g_cas := GCommit | GConflict.\n"
-        if digest:
+        if digest == "archive":
+            body += ("\nSection WithParser.\nVariable E : Type.\nVariable parse : list Z -> option (Z * list Z * E).\n"
+                     "Variable file : list Z -> option (list Z).   (* std::fs::read(path).ok() *)\n\n" + "\n".join(texts) + "End WithParser.\n")
+        elif digest:
             body += ("\nSection WithDigest.\nVariable digest : Type.\nVariable deq : forall x y : digest, {x = y} + {x <> y}.\n"
                      "Definition digest_eqb (x y : digest) : bool := if deq x y then true else false.\n\n" + "\n".join(texts) + "End WithDigest.\n")
         else:
